@@ -163,11 +163,13 @@ def run_unit(unit, rec):
             continue
         cs = sorted(set([lo_ + f * (hi_ - lo_) for f in (0.25, 0.5, 0.8)] + [s for s in np.unique(psum) if lo_ <= s < hi_]))
         cs = [c for c in cs if c > 0]
-        for c in cs:
+        # lattice clouds are integer-valued: they are also handed over as integer-typed arrays (np.indices / itertools.product style)
+        variants = [("float", P)] + ([("int", P.astype(np.int64))] if np.all(P == np.round(P)) else [])
+        for c, (dt, Parg) in itertools.product(cs, variants):
             rec.path()
             rec.trans()
             try:
-                R = np.asarray(dreye.proj_P_to_simplex(P, c), dtype=float)
+                R = np.asarray(dreye.proj_P_to_simplex(Parg, c), dtype=float)
             except Exception as e:  # noqa
                 _v(rec, "e", dict(sig, api="proj_P_to_simplex", **exc_sig(e)), "proj_P_to_simplex raised %r" % (e,), dict(cloud=name, c=c),
                    script="import numpy as np, dreye\nprint(dreye.proj_P_to_simplex(np.array(%r), %r))\n" % (P.tolist(), c))
@@ -188,7 +190,7 @@ def run_unit(unit, rec):
                 bad = ("e", "returned points do not sum to c")
             else:
                 if len(np.unique(np.round(Opts, 9), axis=0)) >= 2:
-                    rec.distinct((name, c))
+                    rec.distinct((name, c, dt))
                 d1 = max(O.hull_dist(Opts, r) for r in R)
                 d2 = max(O.hull_dist(R, o) for o in Opts)
                 if d1 > 1e-7 * scale:
@@ -197,6 +199,6 @@ def run_unit(unit, rec):
                     bad = ("f", "the returned points do not span the whole intersection of the hull with the plane (missing part at distance %.3g)" % d2)
             rec.outcome("slice/%s" % ("ok" if bad is None else "bad"))
             if bad:
-                _v(rec, bad[0], dict(sig, api="proj_P_to_simplex", what=bad[1][:40]), bad[1] + " (c=%s)" % c, dict(cloud=name, c=c), observed=R, expected=Opts,
-                   script="import numpy as np, dreye\nprint(dreye.proj_P_to_simplex(np.array(%r), %r))\n" % (P.tolist(), c))
+                _v(rec, bad[0], dict(sig, api="proj_P_to_simplex", what=bad[1][:40]), bad[1] + " (c=%s, %s-typed cloud)" % (c, dt), dict(cloud=name, c=c, dtype=dt), observed=R, expected=Opts,
+                   script="import numpy as np, dreye\nprint(dreye.proj_P_to_simplex(np.array(%r), %r))\n" % (Parg.tolist(), c))
     rec.sample(dict(dim=d, size=unit["size"], clouds=ncl, queries=len(queries), directions=len(dirs)), cap=1)
